@@ -284,6 +284,7 @@ pub fn run<K: SimKernel<D>, const D: usize>(
     monitors: &mut [&mut dyn Monitor<K, D>],
 ) -> RunReport {
     let rs = header.run_seed;
+    crate::exact::set_abs_band_safety(if header.family == "small" { 10.0 } else { 1e6 });
     let mut cfg = Rng::sub(rs, "cfg", 0);
     let mut gener = Gen::new(rs, D, &header.family, profile.thorough);
     gener.nonfinite_permille = profile.nonfinite_permille;
